@@ -52,11 +52,44 @@ theorem numBatches_covers (n B : Nat) (hB : 0 < B) : n ≤ ((n + B - 1) / B) * B
   have : B * ((n + B - 1) / B) = (n + B - 1) / B * B := by ring
   omega
 
+/-- `t / b = q` says `q·b ≤ t < q·b + b` -/
+theorem ediv_char {t b q : Int} (hb : 0 < b) (h : t / b = q) : q * b ≤ t ∧ t < q * b + b := by
+  subst h
+  refine ⟨Int.ediv_mul_le t (ne_of_gt hb), ?_⟩
+  have h := Int.lt_ediv_add_one_mul_self t hb
+  have e : (t / b + 1) * b = t / b * b + b := by ring
+  omega
+
+/-- the ceiling `⌈n/b⌉` is the only `q` with `(q-1)·b < n ≤ q·b` -/
+theorem ceil_unique {n b q : Int} (hb : 0 < b) (h1 : (q - 1) * b < n) (h2 : n ≤ q * b) : q = (n + b - 1) / b := by
+  obtain ⟨hd1, hd2⟩ := ediv_char hb (rfl : (n + b - 1) / b = (n + b - 1) / b)
+  generalize (n + b - 1) / b = d at hd1 hd2 ⊢
+  have a1 : d * b < (q + 1) * b := by linarith
+  have a2 : (q - 1) * b < d * b := by linarith
+  have b1 := lt_of_mul_lt_mul_right a1 hb.le
+  have b2 := lt_of_mul_lt_mul_right a2 hb.le
+  omega
+
+/-- **what `num_coil_batches` has to be**: the generated formula is the ceiling of `n / b`, characterised by
+    `(q-1)·b < n ≤ q·b`.  The proof does not look at the SHAPE of the generated expression beyond replacing every
+    `t // b` in it by a `q` with `q·b ≤ t < q·b + b` and closing the two inequalities by linear arithmetic, so
+    `(n + b - 1) // b`, `(n - 1) // b + 1`, `-(-n // b)`, `(b + n - 1) // b`, … all pass, while a formula that is not
+    the ceiling (`n // b`, `(n + b) // b`, `n // b + 1`) makes this theorem — and everything below — fail. -/
+theorem numCoilBatches_char (n b : Int) (hb : 0 < b) :
+    (Gen.senseNumCoilBatches n b - 1) * b < n ∧ n ≤ Gen.senseNumCoilBatches n b * b := by
+  unfold Gen.senseNumCoilBatches
+  simp only [pyDiv_of_pos _ hb]
+  generalize hq : (_ : Int) / _ = q
+  have := ediv_char hb hq
+  clear hq
+  constructor <;> nlinarith
+
 /-- the generated `num_coil_batches` on naturals -/
 theorem numCoilBatches_nat (n B : Nat) (hB : 0 < B) :
     Gen.senseNumCoilBatches (n : Int) (B : Int) = (((n + B - 1) / B : Nat) : Int) := by
-  unfold Gen.senseNumCoilBatches
-  rw [pyDiv_of_pos _ (by exact_mod_cast hB)]
+  have hb : (0 : Int) < B := by exact_mod_cast hB
+  obtain ⟨h1, h2⟩ := numCoilBatches_char n B hb
+  refine (ceil_unique hb h1 h2).trans ?_
   have : ((n : Int) + (B : Int) - 1) = ((n + B - 1 : Nat) : Int) := by omega
   rw [this]
   norm_cast
